@@ -30,6 +30,7 @@ import NeoModel.Proofs.WireObj
 import NeoModel.Proofs.WireItemJson
 import NeoModel.Proofs.WireItemJsonU
 import NeoModel.Proofs.WireNefEntry
+import NeoModel.Model.Wire.Scopes
 namespace NeoModel.Wire
 open Codec
 open NeoModel.Generated
@@ -931,5 +932,33 @@ def nef0Bytes : Bytes := (nefC lenHash).enc nef0
 example : nefFromBytes lenHash nef0Bytes = some nef0 := by rfl
 example : nefFromBytes lenHash (nef0Bytes.take 68 ++ [0xfd, 0, 0] ++ nef0Bytes.drop 69) = some nef0 := by rfl
 example : nefFromBytes lenHash (nef0Bytes.take 68 ++ [0xfd, 0, 0] ++ (nef0Bytes.drop 69).take 6 ++ leBytes 4 77) = none := by rfl
+
+/-! ## JSON (text) form of witness scopes -/
+
+set_option maxRecDepth 1000000 in
+theorem scopes_roundtrip_all :
+    (List.range 256).all (fun n => !scopeOk (UInt8.ofNat n)
+      || Scopes.fromString (Scopes.toString (UInt8.ofNat n)) == some (UInt8.ofNat n)) = true := by
+  decide
+
+/-- C17 (witness scopes, JSON) every scope byte the binary decoder accepts survives the text form:
+`ScopesFromString (scopesToString s) = s`. -/
+theorem scopes_json_roundtrip (s : UInt8) (h : scopeOk s = true) : Scopes.fromString (Scopes.toString s) = some s := by
+  have hall := List.all_eq_true.mp scopes_roundtrip_all s.toNat (by simp [List.mem_range]; exact s.toNat_lt)
+  have hs : UInt8.ofNat s.toNat = s := by simp
+  rw [hs, h] at hall
+  simpa using hall
+
+/-
+scopes_json_accepts_only_valid — FALSE on the unchanged tree: the loop of ScopesFromString refuses a scope AFTER
+`Global` but not `Global` after other scopes (known finding signer-json-scope-invalid): the text
+"CalledByEntry, Global" reads as 0x81, which Signer.DecodeBinary refuses and whose own text form
+"WitnessScope(129)" is not readable.
+-/
+/-- C17 NEGATION (scopes accepted from JSON that the binary form refuses). -/
+theorem scopes_json_accepts_invalid :
+    Scopes.fromString (Scopes.nCalledByEntry ++ [0x2c, 0x20] ++ Scopes.nGlobal) = some 0x81 ∧ scopeOk 0x81 = false
+      ∧ Scopes.fromString (Scopes.toString 0x81) = none
+      ∧ Scopes.fromString (Scopes.nGlobal ++ [0x2c, 0x20] ++ Scopes.nCalledByEntry) = none := by decide
 
 end NeoModel.Wire
